@@ -526,6 +526,10 @@ structure PointKind (F : Type) where
   /-- spec side: affine coordinates of a representation printed by the deserialiser
       (`none`: not of the shape a deserialiser returns) -/
   unback : T → Option (Option (F × F))
+  /-- `Valid::check` -/
+  check : T → Outcome Bool
+  /-- `Valid::batch_check` -/
+  batchCheck : List T → Bool
 
 def pointKind (K : Kit F) (C : Curve F) (proj : Bool) : PointKind F :=
   let Kc := K.codec
@@ -536,7 +540,8 @@ def pointKind (K : Kit F) (C : Curve F) (proj : Bool) : PointKind F :=
       ser := fun P cm => swSerialize Kc P cm, de := fun cm vd => swDeserialize Kc (swE K C) cm vd,
       canon := swAffCanon,
       back := fun P => match P with | none => "inf" | some (x, y) => fStr K x ++ "/" ++ fStr K y,
-      unback := fun P => some (swAffCanon P) }
+      unback := fun P => some (swAffCanon P),
+      check := fun P => .ok (swCheck (swE K C) P), batchCheck := swBatchCheck (swE K C) }
   | false, true =>
     { T := SWProj F,
       parse := fun s => match parseFs K s with | some [x, y, z] => some ⟨x, y, z⟩ | _ => none,
@@ -549,7 +554,8 @@ def pointKind (K : Kit F) (C : Curve F) (proj : Bool) : PointKind F :=
       -- a deserialised projective point is `(x, y, 1)` or `(1, 1, 0)`
       unback := fun P =>
         if P.z = 0 then (if P.x = one ∧ P.y = one then some none else none)
-        else if P.z = one then some (some (P.x, P.y)) else none }
+        else if P.z = one then some (some (P.x, P.y)) else none,
+      check := swProjCheck (swE K C), batchCheck := swProjBatchCheck (swE K C) }
   | true, false =>
     { T := TEAff F,
       parse := fun s => match parseFs K s with | some [x, y] => some ⟨x, y⟩ | _ => none,
@@ -557,7 +563,8 @@ def pointKind (K : Kit F) (C : Curve F) (proj : Bool) : PointKind F :=
       ser := fun P cm => teSerialize Kc P cm, de := fun cm vd => teDeserialize Kc (teE C) cm vd,
       canon := fun P => some (P.x, P.y),
       back := fun P => match P with | none => "?" | some (x, y) => fStr K x ++ "/" ++ fStr K y,
-      unback := fun P => some (some (P.x, P.y)) }
+      unback := fun P => some (some (P.x, P.y)),
+      check := fun P => .ok (teCheck (teE C) P), batchCheck := teBatchCheck (teE C) }
   | true, true =>
     { T := TEProj F,
       parse := fun s => match parseFs K s with | some [x, y, t, z] => some ⟨x, y, t, z⟩ | _ => none,
@@ -567,7 +574,8 @@ def pointKind (K : Kit F) (C : Curve F) (proj : Bool) : PointKind F :=
       back := fun P => match P with
         | none => "?"
         | some (x, y) => fStr K x ++ "/" ++ fStr K y ++ "/" ++ fStr K (x * y) ++ "/" ++ fStr K one,
-      unback := fun P => if P.z = one ∧ P.t = P.x * P.y then some (some (P.x, P.y)) else none }
+      unback := fun P => if P.z = one ∧ P.t = P.x * P.y then some (some (P.x, P.y)) else none,
+      check := teProjCheck (teE C), batchCheck := teProjBatchCheck (teE C) }
 
 def sizeOfKind (K : Kit F) (C : Curve F) (cm : Compress) : Nat :=
   if C.te then teSerializedSize K.codec cm else swSerializedSize K.codec cm
@@ -640,6 +648,18 @@ def runMpde (K : Kit F) (C : Curve F) (proj : Bool) (cm : Compress) (vd : Valida
       | _ => "bad:" ++ impl
   some (m, verdict)
 
+/-- `C10 pchk CD <rep> <P>` / `C10 pbchk CD <rep> <P1;P2;…>` => `ok` | `err:invalid`: `Valid::check`, `Valid::batch_check` -/
+def runChk (K : Kit F) (kind a b r h1 rep ps impl : String) : Option (String × String) := do
+  let C ← parseCurve K kind a b r h1
+  let proj ← if rep == "proj" then some true else if rep == "aff" then some false else none
+  let PK := pointKind K C proj
+  let Ps ← if ps == "_" then some [] else mapM? PK.parse (ps.splitOn ";")
+  let m := match Ps with
+    | [P] => (match PK.check P with | .panic => "panic" | .ok true => "ok" | .ok false => "err:invalid")
+    | _ => if PK.batchCheck Ps then "ok" else "err:invalid"
+  let want := if Ps.all (fun P => validCanon K C (PK.canon P)) then "ok" else "err:invalid"
+  some (m, if impl == "panic" then "bad:panic" else if impl == want then "ok" else "bad:want=" ++ want)
+
 /-- a point line: `kind a b r h1 rep cm vd payload` over the field of `K` -/
 def runPoint (K : Kit F) (mal : Bool) (kind a b r h1 rep cm vd payload impl : String) : Option (String × String) := do
   let C ← parseCurve K kind a b r h1
@@ -662,6 +682,19 @@ def runPointLine (mal : Bool) (args : List String) (impl : String) : Option (Str
       | ["2", beta] => do
         let beta ← parseHex? beta
         runPoint (kitFp2 ⟨p, n⟩ beta) mal kind a b r h1 rep cm vd payload impl
+      | _ => none
+  | _ => none
+
+def runChkLine (args : List String) (impl : String) : Option (String × String) :=
+  match args with
+  | [kind, p, n, t, a, b, r, h1, rep, ps] => do
+    let p ← parseHex? p
+    let n ← parseHex? n
+    if t == "_" then runChk (kitFp ⟨p, n⟩) kind a b r h1 rep ps impl
+    else match t.splitOn ":" with
+      | ["2", beta] => do
+        let beta ← parseHex? beta
+        runChk (kitFp2 ⟨p, n⟩ beta) kind a b r h1 rep ps impl
       | _ => none
   | _ => none
 
@@ -689,6 +722,8 @@ def run (op : String) (args : List String) (impl : String) : Option (String × S
     runMfdefl F fname (← parseList? bs) impl
   | "prt", _ => runPointLine false args impl
   | "mpde", _ => runPointLine true args impl
+  | "pchk", _ => runChkLine args impl
+  | "pbchk", _ => runChkLine args impl
   | _, _ => none
 
 end Ark.DrvC09
